@@ -967,6 +967,62 @@ def inplace_ops_on_threads_and_manager_inputs(L, rec, rng):
             mon.set_local_events(TOOL, c, 0)
         mon.free_tool_id(TOOL)
         rec.observe("inplace_injected_yields", inj[0])
+    # ---- schedule: one manager, several worker threads finishing their requests at the same time (yields inside the
+    # manager's cleanup and the release functions): every thread's own data is gone when *its* cleanup returns
+    mon2 = sys.monitoring
+    try:
+        mon2.use_tool_id(5, "verif-yield-c18c")
+        have_tool = True
+    except ValueError:
+        have_tool = False
+    if have_tool:
+        jit = __import__("random").Random(rng.random())
+        mon2.register_callback(5, mon2.events.LINE, lambda code, line: time.sleep(jit.choice((0, 0, 0.0002, 0.001))))
+        ccodes = [f.__code__ for f in vars(L.LocalManager).values() if hasattr(f, "__code__")] + [L.release_local.__code__, L.Local.__release_local__.__code__, L.LocalStack.__release_local__.__code__]
+        for c in ccodes:
+            mon2.set_local_events(5, c, mon2.events.LINE)
+        old_si2 = sys.getswitchinterval()
+        sys.setswitchinterval(1e-5)
+        left_over = []
+        try:
+            ns4, stk4 = L.Local(), L.LocalStack()
+            mgr4 = L.LocalManager([ns4, stk4])
+            NT4 = 6
+            for rnd in range(5):
+                go = threading.Barrier(NT4)
+
+                def request(i):
+                    for k in range(4):
+                        ns4.user = f"user-{i}-{k}"
+                        stk4.push(f"frame-{i}-{k}")
+                        if k == 0:
+                            go.wait()
+                            time.sleep(i * 0.0003)
+                        mgr4.cleanup()
+                        seen_ = (getattr(ns4, "user", None), stk4.top)
+                        if seen_ != (None, None):
+                            left_over.append((i, k, seen_))
+                            return
+
+                ts4 = [threading.Thread(target=request, args=(i,)) for i in range(NT4)]
+                for t in ts4:
+                    t.start()
+                for t in ts4:
+                    t.join(60)
+                rec.case()
+                rec.nontrivial(("overlapping-cleanups", rnd))
+                rec.observe("overlapping_cleanups", NT4 * 4)
+                if left_over:
+                    break
+        finally:
+            sys.setswitchinterval(old_si2)
+            for c in ccodes:
+                mon2.set_local_events(5, c, 0)
+            mon2.free_tool_id(5)
+        if left_over:
+            i, k, seen_ = left_over[0]
+            rec.violation("C18/LEAK-request-data-survives-cleanup", f"six worker threads share one LocalManager; after thread {i}'s cleanup() returned (its request {k}) the thread still sees {seen_!r}",
+                          {"scenario": "overlapping-cleanups", "thread": i}, monitor="per-thread-model")
     # ---- releasing a stack whose top is None (a frame without an object): everything below goes as well
     for how in ("release_local", "manager.cleanup", "__release_local__"):
         for frames in (["frame", None], ["a", "b", None], [None], ["x", None, None], [0, "", None]):
